@@ -212,12 +212,12 @@ impl MemReader {
         };
         let rest = &mut dst[len..];
         if let Ok(mut file) = std::fs::File::open(format!("/proc/{pid}/mem")) {
-            if Self::file(&mut file, rest_src, rest).is_ok() {
-                return len + rest.len();
+            if let Ok(more) = Self::file(&mut file, rest_src, rest) {
+                return len + more;
             }
         }
-        if Self::ptrace(pid, rest_src, rest).is_ok() {
-            return len + rest.len();
+        if let Ok(more) = Self::ptrace(pid, rest_src, rest) {
+            return len + more;
         }
         len
     }
@@ -235,15 +235,29 @@ impl MemReader {
     fn file(file: &mut std::fs::File, src: usize, dst: &mut [u8]) -> Result<usize, nix::Error> {
         use std::os::unix::fs::FileExt;
 
-        file.read_exact_at(dst, src as u64).map_err(|err| {
-            if let Some(os) = err.raw_os_error() {
-                nix::Error::from_raw(os)
-            } else {
-                nix::Error::E2BIG /* EOF */
+        // Like `process_vm_readv`, a range that runs into memory that cannot be read yields the
+        // bytes before it: a failure is reported only when nothing could be read.
+        let mut read = 0;
+        while read < dst.len() {
+            match file.read_at(&mut dst[read..], (src + read) as u64) {
+                Ok(0) => break,
+                Ok(len) => read += len,
+                Err(err) if err.kind() == std::io::ErrorKind::Interrupted => {}
+                Err(_) if read > 0 => break,
+                Err(err) => {
+                    return Err(if let Some(os) = err.raw_os_error() {
+                        nix::Error::from_raw(os)
+                    } else {
+                        nix::Error::E2BIG /* EOF */
+                    });
+                }
             }
-        })?;
+        }
+        if read == 0 && !dst.is_empty() {
+            return Err(nix::Error::E2BIG /* EOF */);
+        }
 
-        Ok(dst.len())
+        Ok(read)
     }
 
     #[inline]
@@ -256,8 +270,13 @@ impl MemReader {
         let mut chunks = dst.chunks_exact_mut(std::mem::size_of::<usize>());
 
         for chunk in chunks.by_ref() {
-            let word = nix::sys::ptrace::read(pid, (src + offset) as *mut std::ffi::c_void)
-                .map_err(|err| (err, offset))?;
+            let word = match nix::sys::ptrace::read(pid, (src + offset) as *mut std::ffi::c_void) {
+                Ok(word) => word,
+                // Like `process_vm_readv`, a range that runs into memory that cannot be read
+                // yields the bytes before it.
+                Err(_) if offset > 0 => return Ok(offset),
+                Err(err) => return Err((err, offset)),
+            };
             chunk.copy_from_slice(&word.to_ne_bytes());
             offset += std::mem::size_of::<usize>();
         }
@@ -274,9 +293,11 @@ impl MemReader {
                     // range ends instead.
                     let back = std::mem::size_of::<usize>() - rem;
                     let addr = (src + offset).checked_sub(back).ok_or((err, offset))?;
-                    let word = nix::sys::ptrace::read(pid, addr as *mut std::ffi::c_void)
-                        .map_err(|err| (err, offset))?;
-                    last.copy_from_slice(&word.to_ne_bytes()[back..]);
+                    match nix::sys::ptrace::read(pid, addr as *mut std::ffi::c_void) {
+                        Ok(word) => last.copy_from_slice(&word.to_ne_bytes()[back..]),
+                        Err(_) if offset > 0 => return Ok(offset),
+                        Err(err) => return Err((err, offset)),
+                    }
                 }
             }
         }
